@@ -333,4 +333,12 @@ def emit(repo: str) -> str:
         "Definition api_defaults_gen := api_defaults print_help_applies_config_gen.\n"
         "Definition parse_defaults_gen (perm : list string -> list string) (c : cfg) (m : crmode) :=\n"
         "  parse_defaults skip_gen (resolver_gen perm c m) print_help_sets_up_gen print_help_applies_config_gen.\n"
+        "(* the same three, on an already computed set-up outcome *)\n"
+        "Definition cli_help_of_gen (perm : list string -> list string) :=\n"
+        "  cli_help_of skip_gen arg_help_gen TEMPORARY_TOKEN_gen adds_default_gen strips_token_gen option_order_preserved_gen perm\n"
+        "              help_status_gen help_stdout_gen.\n"
+        "Definition api_help_of_gen (perm : list string -> list string) :=\n"
+        "  api_help_of skip_gen arg_help_gen TEMPORARY_TOKEN_gen adds_default_gen strips_token_gen option_order_preserved_gen perm\n"
+        "              print_help_sets_up_gen print_help_applies_config_gen.\n"
+        "Definition parse_defaults_of_gen := parse_defaults_of skip_gen print_help_sets_up_gen print_help_applies_config_gen.\n"
     )
